@@ -210,6 +210,15 @@ func doOp(vm data.VM, o Op) (res Res) {
 		res.D = vm.EnterCall()
 		vm.LeaveCall()
 		res.D = -1
+	case "shutdown":
+		// register_shutdown_function reaches VM.AddShutdownCallback (a TempVM delegates to the base)
+		vm.AddShutdownCallback(data.NewIntValue(o.Val))
+	case "compiledfile":
+		vm.RegisterCompiledFile(o.Name, func() (data.GetValue, []data.Variable) { return nil, nil })
+	case "globalctx":
+		if b, ok := vm.(*ort.VM); ok {
+			b.RegisterGlobalContext(nil, b.CreateContext(nil))
+		}
 	case "handler":
 		if h, ok := vm.(interface {
 			SetExceptionHandler(data.Value) data.Value
@@ -264,12 +273,17 @@ type Config struct {
 	GoMaxProcs int    `json:"gomaxprocs"`
 	Stamps     bool   `json:"stamps"` // record invocation/return stamps (adds atomic operations between calls)
 	Temps      []bool `json:"temps"`  // Temps[t]: thread t runs on its own TempVM of the shared base (a request)
+	SharedTemp bool   `json:"sharedtemp"` // the Temps threads all run on ONE TempVM (coroutines spawned inside one request)
 	Repeat     int    `json:"repeat"` // run the same programs on this many fresh VMs (race hunting)
 	KeepAll    bool   `json:"keepall"` // return the results of every repetition
 }
 
 func runOnce(cfg *Config) [][]Res {
 	vm := newVM()
+	var shared data.VM
+	if cfg.SharedTemp {
+		shared = ort.NewTempVM(vm)
+	}
 	var clock int64
 	n := len(cfg.Threads)
 	res := make([][]Res, n)
@@ -284,7 +298,11 @@ func runOnce(cfg *Config) [][]Res {
 			rs := make([]Res, len(ops))
 			var vm data.VM = vm
 			if t < len(cfg.Temps) && cfg.Temps[t] {
-				vm = ort.NewTempVM(vm) // request-level VM, as HotHandler.ServeHTTP creates one per request
+				if shared != nil {
+					vm = shared
+				} else {
+					vm = ort.NewTempVM(vm) // request-level VM, as HotHandler.ServeHTTP creates one per request
+				}
 			}
 			ready.Done()
 			for atomic.LoadInt32(&start) == 0 {
